@@ -14,6 +14,8 @@ fresh object, with `matid.classification.classifier.PeriodicFinder` replaced fro
 Independently of the classifier the runner computes, with public functions only, the dimensionality
 of the wrapped copy, the argsort of the distances to the centre of mass and the scaled tolerances.
 """
+import contextlib
+import io
 import json
 import os
 import sys
@@ -30,7 +32,7 @@ import numpy as np  # noqa: E402
 from ase import Atoms  # noqa: E402
 import matid.geometry as G  # noqa: E402
 import matid.classification.classifier as CL  # noqa: E402
-from matid.core.linkedunits import LinkedUnitCollection, LinkedUnit  # noqa: E402
+from matid.core.linkedunits import LinkedUnitCollection, LinkedUnit, Substitution  # noqa: E402
 
 RealFinder = CL.PeriodicFinder
 LOG = []          # get_region calls of the current classify call
@@ -64,8 +66,12 @@ def summarize(region):
 def build_region(ans, system, seed_index):
     cell = Atoms("H", positions=[[0, 0, 0]], cell=np.eye(3)) if ans["cell"] else None
     coll = LinkedUnitCollection(system, cell, bool(ans["is_2d"]))
+    nums = system.get_atomic_numbers()
     for j, u in enumerate(ans["units"]):
-        coll[(j, 0, 0)] = LinkedUnit((j, 0, 0), seed_index, None, None, list(u), [], [])
+        sub = [Substitution(int(i), None, 0, int(nums[i])) for i in (ans.get("subs") or [[]] * len(ans["units"]))[j]]
+        if sub and j % 2:
+            sub.insert(0, None)
+        coll[(j, 0, 0)] = LinkedUnit((j, 0, 0), seed_index, None, None, list(u), sub, [])
     g = coll._search_graph
     nn = len(ans["graph"])
     for j in range(nn):
@@ -214,6 +220,20 @@ def run_case(case):
     except Exception as e:  # noqa
         row["ctor_error"] = type(e).__name__ + ": " + str(e)[:200]
         return row
+    if case.get("prior"):
+        # history: this Classifier object classifies another structure first (real finder, not logged, never the script)
+        pr = case["prior"]
+        CL.PeriodicFinder = RealFinder
+        try:
+            with contextlib.redirect_stdout(io.StringIO()):
+                clf.classify(Atoms(numbers=pr["numbers"], positions=pr["positions"], cell=pr["cell"], pbc=pr["pbc"]))
+            row["prior"] = "ok"
+        except Exception as e:  # noqa
+            row["prior"] = type(e).__name__
+        CL.PeriodicFinder = StubFinder if SCRIPT is not None else LoggingFinder
+        KEYED.clear()
+        del F0_BAD[:]
+        del LOG[:]
     row["obs1"] = observe(clf, atoms)
     row["input_equal_1"] = same(before, snapshot(atoms))
     row["f0_bad_calls"] = list(F0_BAD)
